@@ -48,8 +48,9 @@ def call_with(f, args, pos, tag):
         return xl.to_abs(e)
 
 
-def formula_with(f, args, pos, via_cell):
-    """the spelled argument as a literal, or in a referenced cell"""
+def formula_with(f, args, pos, via_cell, wrap=False):
+    """the spelled argument as a literal, or in a referenced cell; wrap: the call stands in the chosen branch of an IF
+    (XlLogic: IF(TRUE, x, y) = x and IF(FALSE, y, x) = x, whatever x is)"""
     cells = {}
     parts = []
     for i, a in enumerate(args):
@@ -67,6 +68,8 @@ def formula_with(f, args, pos, via_cell):
         text = ('=-' + p[0]) if f == 'OP_NEG' else ('=' + p[0] + '%') if f == 'OP_PERCENT' else '=' + p[0] + calls.OPSYM[f] + p[1]
     else:
         text = '=' + f + '(' + ','.join(parts) + ')'
+    if wrap:
+        text = ('=IF(TRUE,' + text[1:] + ',0)') if pos % 2 else ('=IF(1>2,0,' + text[1:] + ')')
     try:
         model, ev = xl.build_model(cells, {'Sheet1!Z1': text})
         return xl.to_abs(ev.evaluate('Sheet1!Z1')), text
@@ -152,6 +155,8 @@ def worker(blocks):
                 for via_cell in (False, True):
                     o, text = formula_with(f, args, pos, via_cell)
                     results.append((('formula-cell:' if via_cell else 'formula-literal:') + tag, o))
+                o, text = formula_with(f, args, pos, True, wrap=True)
+                results.append(('formula-cell-in-IF-branch:' + tag, o))
         for path, obs in results:
             out['calls'] += 1
             ok = agrees(obs, exp, rel=1e-9)
@@ -302,6 +307,41 @@ def registry_worker(blocks):
     return out
 
 
+def long_chain_events():
+    """a & b & c ... and a + b + c ... over hundreds of referenced cells of every scalar type: operators have no limit on the
+    length of a chain (the FUNCTIONS CONCAT / SUM stop at 254 / 255 arguments; an operator chain is no call of them)"""
+    return [{'op': op, 'n': n, 'mix': mix} for op in ('&', '+', '*') for n in (3, 200, 254, 255, 256, 300) for mix in (0, 1)]
+
+
+def record_long_chain(chunk):
+    from harness import syntax as S
+    L = xl.lib()
+    out = []
+    for e in chunk:
+        n, op = e['n'], e['op']
+        vals = []
+        for i in range(n):
+            k = (i * 7 + e['mix']) % 9
+            if op == '&':
+                vals.append([i % 10, 'ab', True, 2.5, None, 'x', 7, False, '1e1'][k])
+            elif op == '+':
+                vals.append([i % 10, '3', True, 2.5, None, 1, 7, False, '10'][k])
+            else:
+                vals.append([1, '1', True, 1, None if i == 9999 else 1, 1, 2 if i < 20 else 1, True, '1'][k])
+        d = {f'Sheet1!A{i + 1}': v for i, v in enumerate(vals) if v is not None}
+        d['Sheet1!C1'] = '=' + op.join(f'A{i + 1}' for i in range(n))
+        ast = {'k': 'chainl', 'op': op, 'xs': [S.ref(1, i + 1) for i in range(n)]}      # (folded to the left by Trace_Local)
+        try:
+            res = xl.to_abs(L.Evaluator(L.ModelCompiler().read_and_parse_dict(d)).evaluate('Sheet1!C1'))
+        except BaseException as ex:      # noqa
+            if isinstance(ex, (KeyboardInterrupt, SystemExit)):
+                raise
+            res = {'t': 'exc', 'cls': type(ex).__name__}
+        out.append({'ast': ast, 'sheet': 'Sheet1', 'names': [], 'res': res, 'addr': 'Sheet1!C1', 'text': f'=A1{op}A2{op}...{op}A{n}',
+                    'cells': [{'sheet': 'Sheet1', 'col': 1, 'row': i + 1, 'v': xl.to_abs(v)} for i, v in enumerate(vals) if v is not None]})
+    return out
+
+
 BUG_MODELS = {}
 
 
@@ -334,6 +374,14 @@ def run(run):
     run.notes['texts_used_elsewhere_first'] = res['texts']
     for d in res['dis']:
         run.disagree('call', d['case'], d['exp'], d['obs'], d['features'], clause=d['path'])
+    # operator chains longer than any function takes arguments
+    from harness import evalrec
+    lc = [e for part in pool.pmap(record_long_chain, long_chain_events(), nchunks=12) for e in part]
+    lv = evalrec.validate(run, lc, name='longchain', kind='long-operator-chain')
+    run.evaluations += len(lc)
+    run.notes['long_chain_events'] = dict(lv)
+    if lv.get('ok', 0) < len(lc) * 2 // 3:
+        raise xl.MachineryError(f'long operator chains: too few judged ({dict(lv)})')
     # function-name matching
     ncases = name_cases()
     for part in pool.pmap(name_worker, ncases):
